@@ -76,6 +76,7 @@ type RunOpts struct {
 	Opts
 	Rounds         int
 	GoPolicy       string
+	SwitchHook     string
 	AlsoProps      []string // assertions tagged for these properties count as this check's too
 	Prop           string   // property id: assertions tagged for another property ("Cnn.") are not this check's
 	Solver         string   // primary backend
@@ -91,6 +92,7 @@ func RunCase(prog *ssa.Program, pkg *ssa.Package, harness string, shape map[stri
 	e := NewEngine(prog, pkg, ro.Opts)
 	e.Rounds = ro.Rounds
 	e.GoPolicy = ro.GoPolicy
+	e.SwitchHook = ro.SwitchHook
 	for k, v := range shape {
 		e.Shape[k] = v
 	}
